@@ -28,6 +28,9 @@ use wasmparser::{
     BinaryReaderError, Validator, WasmFeatures,
 };
 
+#[cfg(wac_verif)]
+mod verif;
+
 /// Represents an error that can occur when defining a type in
 /// a composition graph.
 #[derive(Debug, Error)]
